@@ -72,7 +72,7 @@ def dst_listing_complete(ctx, F, rid):
                         work.append(b.blocks[o.bb]['term']['args'][0])
                     elif o.kind in ('call', 'mutcall'):
                         unread.append(str(o.key))
-            key = '%s:build_plan(dst listing)' % entry.split('::')[-1]
+            key = '%s:dst-listing-complete' % entry.split('::')[-1]
             n += 1
             if not restrict:
                 if unread and not scans:
